@@ -31,6 +31,7 @@ type Config struct {
 	Resolver        func(iface types.Type, method string) *ssa.Function
 	Debug           bool
 	IfaceFrame      func(itype types.Type, method string) (effects []string, impls int)
+	FuncFrame       func(fn *ssa.Function) []string // inferred may-write set of a function (closures included)
 	Deadline        time.Time // wall-clock budget of the function being explored
 	FuncBudget      time.Duration
 	StrictExternals bool // abort instead of havoc on unmodelled externals
@@ -50,6 +51,9 @@ type AbstractSpec struct {
 type abortErr struct{ msg string }
 type panicOut struct{ msg string }
 type infeasible struct{}
+
+// loopStepDone ends a path that served only the step obligation of a callback-loop invariant.
+type loopStepDone struct{}
 
 // SupplyEvent is one bank mint or burn performed on the path.
 type SupplyEvent struct {
@@ -103,6 +107,8 @@ type Exec struct {
 	specArith     bool
 	revealPrefix  string
 	TopFn         *ssa.Function
+	TopEv         *evalEnv  // specification environment of the function under verification
+	TopCt         *Contract // its contract
 	TopKey        string
 	Externals     map[string]bool
 	TopForalls    []*smt.Term
